@@ -69,9 +69,9 @@ class Gen:
                     parts = self.narrow(parts)
                 td = {"name": self.name("t"), "parent": parent, "restr": {"range": list(parts)}, "default": None, "units": None, "loc": rng.choice(["main", "main", "sub"])}
                 inherited = next((x["default"] for x in reversed(chain) if x["default"] is not None), None)
-                if rng.random() < 0.3 or (inherited is not None and not any(a <= int(inherited) <= b for a, b in parts)):
+                if rng.random() < 0.4 or (inherited is not None and not any(a <= int(inherited) <= b for a, b in parts)):
                     td["default"] = str(rng.choice(parts)[0])
-                if rng.random() < 0.2:
+                if rng.random() < 0.35:
                     td["units"] = rng.choice(["s", "ms", "kB"])
                 self.typedefs.append(td)
                 chain.append(td)
@@ -88,6 +88,8 @@ class Gen:
                     p = rng.choice(["[a-z]*", "[a-c]*", ".*", "a.*|b.*|[c-z]*|", "[a-z0-9]*"])
                     restr["patterns"] = [p]
                 td = {"name": self.name("t"), "parent": parent, "restr": restr, "default": None, "units": None, "loc": rng.choice(["main", "main", "sub"])}
+                if rng.random() < 0.3:
+                    td["units"] = rng.choice(["s", "ms", "kB"])
                 self.typedefs.append(td)
                 chain.append(td)
                 parent = td["name"]
@@ -559,6 +561,18 @@ class Desc:
         for _ in range(rng.randrange(1, 4)):
             g.grouping()
         self.main = [g.container(0) for _ in range(rng.randrange(1, 3))] + g.children(0)
+        # every typedef of every chain is used several times without a restriction or default of its own (default and units
+        # come from different levels of the chain; the first and the later users of a typedef must inherit the same)
+        reuse = []
+        for td in g.typedefs:
+            for j in range(rng.randrange(1, 4)):
+                reuse.append({"k": "leaf", "name": g.name("lr"), "type": {"ref": td["name"], "restr": {}}, "default": None, "mandatory": None, "config": None,
+                              "iff": [], "units": ("x" if rng.random() < 0.25 else None), "must": []})
+            if rng.random() < 0.4:
+                reuse.append({"k": "leaf-list", "name": g.name("llr"), "type": {"ref": td["name"], "restr": {}}, "min": None, "max": None, "config": None, "iff": [],
+                              "ordered": False, "units": None, "must": []})
+        rng.shuffle(reuse)
+        self.main.append({"k": "container", "name": g.name("ctd"), "presence": "p", "children": reuse, "config": None, "iff": [], "must": []})
         self.sub = g.children(0) if rng.random() < 0.7 else []
         flat_all = flatten(g, copy.deepcopy(self.main + self.sub))
         conts = [(p, n) for p, n in g.paths_flat(flat_all, "") if n["k"] in ("container", "list")]
